@@ -308,6 +308,14 @@ Definition errobs_of (c : dcase) : list kind :=
                                Z.ltb (Z.of_nat (length (snd (fst (d_status c))))) (snd (model_thr c))))
   then [KErr] else [].
 
+(* observation only (evaluated when the trace has diverged from the model): a Send whose context was never cancelled and that
+   returned must have started every pipeline the registry model has for the type *)
+Definition started_count (tr : list ev) : nat :=
+  length (filter (fun e => match e with EvStart _ => true | _ => false end) tr).
+Definition skipobs_of (c : dcase) (roots : list root) : list kind :=
+  if negb (cancelled_of c) && returned_seen (d_trace c) && Nat.ltb (started_count (d_trace c)) (length roots)
+  then [KSkipped] else [].
+
 Definition proto_end_of (c : dcase) (s : st) : list kind :=
   if d_quiet c && returned_seen (d_trace c) && negb (is_terminal s) then [KProto] else [].
 
@@ -323,7 +331,7 @@ Definition run_case (c : dcase) : list (N * N * kind) :=
   | Some roots =>
       (* the trace is replayed over the pipelines the registration history registered (registry model) *)
       match run_trace (beh_of (d_trace c)) (e0_of (d_trace c)) (want_of c) (a0_of c roots) 0%N (d_trace c) with
-      | (_, Some m) => m :: tagE (reg_of c roots ++ invented_of c roots ++ errobs_of c ++ oracle_of c)
+      | (_, Some m) => m :: tagE (reg_of c roots ++ invented_of c roots ++ errobs_of c ++ skipobs_of c roots ++ oracle_of c)
       | (a, None) =>
           tagE (proto_end_of c (a_st a) ++ final_checks c (a_st a) (a_rets a) ++ reg_of c roots ++ invented_of c roots ++ oracle_of c)
       end
